@@ -195,33 +195,50 @@ def finish(pid, tier, seed, level, merged, t0, *, rule, explanation, bounds, ass
     nonrepro = []
     seen_sig = set()
     replays_done = 0
-    # group violations by kind+features so that each distinct one is replayed once
+    # Violations are grouped by (kind, features).  Groups matching a listed known finding are
+    # confirmed by replaying a few representatives per finding; every other group is replayed.
     groups = {}
     for v in merged['violations']:
         key = json.dumps([v['kind'], v['features']], sort_keys=True, default=str)
         groups.setdefault(key, []).append(v)
+    by_known = {}
+    unmatched = []
     for key, vs in groups.items():
-        v = vs[0]
-        path = write_replay(pid, {'property': pid, 'kind': v['kind'], 'features': v['features'],
-                                  'replay': v['replay'], 'note': v.get('note', '')})
-        ok, out = (None, '')
-        for cand in vs[:3]:
+        k = match_known(known, vs[0])
+        if k is not None:
+            by_known.setdefault(k['id'], (k, []))[1].append(vs)
+        else:
+            unmatched.append(vs)
+
+    def try_replay(vs, n=3):
+        nonlocal replays_done
+        ok, out, path = None, '', None
+        for cand in vs[:n]:
             path = write_replay(pid, {'property': pid, 'kind': cand['kind'], 'features': cand['features'],
                                       'replay': cand['replay'], 'note': cand.get('note', '')})
             ok, out = replay(pid, path)
             replays_done += 1
             if ok:
                 break
+        return ok, out, path
+    for kid, (k, gl) in by_known.items():
+        reps = [g[0] for g in gl[:4]]
+        ok, out, path = try_replay(reps, n=4)
         if ok:
             confirmed += 1
-            k = match_known(known, v)
-            if k is not None:
-                if k['id'] not in seen_sig:
-                    seen_sig.add(k['id'])
-                    lines.append(f"KNOWN-FINDING: property={pid} {k['what']}")
-            else:
-                lines.append(f'VIOLATION property={pid} replay={path}')
-                code = EXIT_VIOLATION
+            seen_sig.add(kid)
+            lines.append(f"KNOWN-FINDING: property={pid} {k['what']}")
+        else:
+            nonrepro.append({'kind': reps[0]['kind'], 'features': reps[0]['features'], 'replay_output': out[-600:], 'path': path,
+                             'note': 'listed known finding no longer reproduces'})
+    unmatched.sort(key=lambda vs: json.dumps(vs[0]['features'], sort_keys=True, default=str))
+    for vs in unmatched[:30]:
+        ok, out, path = try_replay(vs)
+        v = vs[0]
+        if ok:
+            confirmed += 1
+            lines.append(f'VIOLATION property={pid} replay={path}')
+            code = EXIT_VIOLATION
         else:
             nonrepro.append({'kind': v['kind'], 'features': v['features'], 'replay_output': out[-600:], 'path': path})
     if merged['errors']:
